@@ -242,6 +242,40 @@ def run(rep, tier, seed):
             if (out.a, out.b, out.c) != (10, 2, 30):
                 rep.violation("policy:skipped-optional-shifts-arguments", "property-violated",
                               {"what": f"skipping an unlinked optional field misplaces later fields: {out!r}"})
+    # every subset of 1-3 unlinked optional fields allowed one by one: the converter exists iff ALL of them are allowed
+    import itertools as _it
+    from typing import List as _List
+
+    from adaptix import P as _P
+    for k in (1, 2, 3):
+        names = ["first", "second", "third"][:k]
+        for order in _it.permutations(names):
+            DK = make_dataclass("DK", [("a", int)] + [(nm, int, field(default=50 + i)) for i, nm in enumerate(order)])
+            for mask in range(2 ** k):
+                allowed = [nm for i, nm in enumerate(names) if mask >> i & 1]
+                for spelling in ("name", "pattern", "nested"):
+                    recipe = [allow_unlinked_optional(nm if spelling != "pattern" else getattr(_P[DK], nm)) for nm in allowed]
+                    want = len(allowed) == k
+                    npol += 1
+                    try:
+                        if spelling == "nested":
+                            c = conv.ConversionRetort(recipe=recipe).get_converter(_List[S1], _List[DK])
+                        else:
+                            c = conv.ConversionRetort(recipe=recipe).get_converter(S1, DK)
+                        got = True
+                    except ProviderNotFoundError:
+                        got = False
+                    if got != want:
+                        rep.violation(f"policy:subset:{k}:{'created' if got else 'refused'}", "property-violated",
+                                      {"what": f"destination fields {list(order)} (all optional, none linked), allow_unlinked_optional for "
+                                               f"{allowed} ({spelling}): converter creation {'succeeded' if got else 'failed'}, expected "
+                                               f"{'success' if want else 'ProviderNotFoundError'}"})
+                    elif got:
+                        out = c([S1(4)])[0] if spelling == "nested" else c(S1(4))
+                        exp = DK(4)
+                        if out != exp:
+                            rep.violation("policy:subset:value", "property-violated",
+                                          {"what": f"all unlinked optional fields allowed, result {out!r} differs from {exp!r}"})
     # ---- a customised converter must not leak into later plain requests on the same retort
     from adaptix.conversion import coercer
     shared = conv.ConversionRetort()
